@@ -403,6 +403,7 @@ def _rest(db, rep):
 
     r9 = rep.rule('r9', 'TYPING-RULES: each set-theoretic construct, evaluated over all operand-type vectors of a universe of typifications, accepts exactly the well-typed ones, reports the rule\'s type and blames the offending operand', 14)
     rep.note('typing_rule_cases', typing_rules(db, r9, rep.tier if hasattr(rep, 'tier') else 'quick'))
+    recursion_typing(db, r9)
 
 
 def _kinds(db, r5):
@@ -1233,3 +1234,114 @@ def typing_rules(db, rule, tier='quick'):
         else:
             rule.ok(name, 'agrees with the typing rule on %d operand-type vectors' % cases, '%s:%d' % (f.file, f.line))
     return total
+
+
+def recursion_typing(db, rule):
+    """TypeAuditor::ViRecursion evaluated with the step's type given as a function of the declared type of the variable: the reported type is the
+    fixed point of the step's type starting from step(T(init)) (at most typeDeductionDepth rounds), the first step must be compatible with the
+    initial value, and the variable is declared with the type of the current iterate in every round."""
+    import itertools
+    from engine.evalmini import Obj, NOT_HANDLED
+    T, base_hook = type_hooks(db)
+    TA = R + 'TypeAuditor'
+    TOK = enum_values(db, R + 'TokenID')
+    EID = {v: k for k, v in enum_values(db, R + 'SemanticEID').items()}
+    f = db.fn(TA + '::ViRecursion', required=False)
+    if f is None:
+        rule.broken('anchor vanished: TypeAuditor::ViRecursion')
+        return
+    X1, Z = ('e', 'X1'), ZT
+    B = lambda t: ('b', t)
+    chain = [B(ANY), B(X1), B(B(X1)), X1, B(Z), B(('e', 'C1'))]
+    bad, cases = None, 0
+    try:
+        for kind in ('NT_RECURSIVE_SHORT', 'NT_RECURSIVE_FULL'):
+            idx = 3 if kind == 'NT_RECURSIVE_FULL' else 2
+            for init in chain[:3] + chain[4:]:
+                for step in itertools.product(chain, repeat=3):
+                    table = dict(zip(chain[:3], step))
+                    tab = lambda t: table.get(t, t)
+                    cases += 1
+                    log, declared = [], []
+                    this = Obj(currentType=None, env=Obj(context=Obj()), noWarnings=Obj(value=False, guardCounter=0), reporter=None, localVars=[])
+
+                    def on_call(it, fn, n, env):
+                        cs = n.get('cs') or ''
+                        last = cs.split('::')[-1]
+                        S = fn.stmts
+                        if last == 'VisitChild' and 'ASTVisitor' in cs:
+                            return True
+                        if cs.startswith(TA + '::'):
+                            if last == 'ChildType':
+                                k = it.eval(fn, S[n['args'][1]], env)
+                                if k == 1:
+                                    return T(init)
+                                if k == idx:
+                                    if not declared:
+                                        raise OutOfFragment('the step is typed before the variable is declared')
+                                    return T(tab(declared[-1]))
+                                raise OutOfFragment('ChildType(%s) in a %s node' % (k, kind))
+                            if last == 'VisitChildDeclaration':
+                                t = it.eval(fn, S[n['args'][2]], env)
+                                declared.append(t['v'])
+                                return True
+                            if last in ('StartScope', 'EndScope', 'ClearLocalVariables'):
+                                return None
+                            if last == 'OnError':
+                                log.append(EID.get(it.eval(fn, S[n['args'][0]], env), '?'))
+                                return None
+                            if last == 'SetCurrent':
+                                this['currentType'] = it.eval(fn, S[n['args'][0]], env)
+                                return True
+                        if cs in ('std::holds_alternative', 'std::get') and n.get('args'):
+                            v = it.eval(fn, S[n['args'][0]], env)
+                            is_t = isinstance(v, Obj) and v.get('__kind__') == 'typ'
+                            if cs == 'std::holds_alternative':
+                                return is_t == ('Typification' in (n.get('targs') or [''])[0])
+                            return v
+                        if n['k'] == 'CXXOperatorCallExpr' and n.get('op') == '()' and 'Cursor' in S[n['args'][0]].get('t', ''):
+                            return Obj(pos=Obj(start=0, finish=0), id=0, data=Obj())
+                        if n['k'] == 'CXXOperatorCallExpr' and n.get('op') == '->' and 'Cursor' in S[n['args'][0]].get('t', ''):
+                            return ('ptr', Obj(pos=Obj(start=0, finish=0), id=TOK[kind], data=Obj()))
+                        if last == 'CreateGuard':
+                            return Obj(__kind__='guard')
+                        if n['k'] in ('CXXConstructExpr', 'CXXTemporaryObjectExpr') and n.get('args') and (n.get('cls') or '').endswith(('Typification', 'optional')):
+                            a = it.eval(fn, S[n['args'][0]], env)
+                            if isinstance(a, Obj) and a.get('__kind__') == 'typ':
+                                return T(a['v'])
+                            return a
+                        return base_hook(it, fn, n, env)
+                    ok = Interp(db, on_call=on_call, max_steps=200000).call(f, [Obj(__kind__='cursor')], this)
+                    cur = this['currentType']['v'] if isinstance(this['currentType'], Obj) and 'v' in this['currentType'] else None
+                    # reference
+                    v = tab(init)
+                    if _lub(v, init) is None:
+                        want = ('err',)
+                    else:
+                        for _ in range(5):
+                            nv = tab(v)
+                            if nv == v:
+                                break
+                            v = nv
+                        want = ('ok', v)
+                    why = None
+                    if want[0] == 'err':
+                        if ok or not log:
+                            why = 'the step has type %s, incompatible with the initial value %s, but the recursion is %s' % (_show_t(tab(init)), _show_t(init), 'accepted' if ok else 'rejected without an error')
+                    elif not ok:
+                        why = 'well-typed recursion rejected (%s)' % log
+                    elif cur != want[1]:
+                        why = 'reported type %s; iterating the type of the step from %s gives %s' % (_show_t(cur) if cur else cur, _show_t(init), _show_t(want[1]))
+                    elif declared and declared[0] != init:
+                        why = 'the variable is first declared with %s, not with the type of the initial value' % _show_t(declared[0])
+                    if why and bad is None:
+                        bad = '%s, initial type %s, step type as a function of the variable type %s: %s' % (kind, _show_t(init), {_show_t(k): _show_t(x) for k, x in table.items()}, why)
+    except OutOfFragment as e:
+        if str(e).startswith(('call to', 'expression kind', 'statement kind', 'unbound')):
+            rule.broken('ViRecursion outside the evaluable fragment: %s' % e)
+            return
+        bad = str(e)
+    if bad:
+        rule.violation('ViRecursion', '%s:%d' % (f.file, f.line), bad)
+    else:
+        rule.ok('ViRecursion', 'type deduction by iteration agrees with the reference on %d (initial type, step-type function) cases' % cases, '%s:%d' % (f.file, f.line))
